@@ -389,6 +389,7 @@ def run(ctx):
             ctx.violation(t, found_input=False)
     else:
         ctx.notes['tie_mismatches'] = tie_bad[:10]
+    ctx.notes['theorems_over_real_number_axioms'] = ['C12_spec_is_flocq_b32', 'C12_spec_is_flocq_b64']
     ctx.notes['observations'] = ['FPNum.mul(inf, 0) returns infinity (IEEE: NaN) - outside the claim (rationals only)',
                                  'FixedPoint.mult reads the top bit as a sign also for sw = 0 (C12_fx_mult_unsigned_refuted)',
                                  'FPNum.div / sqrt use float division: not exact, not claimed']
